@@ -233,7 +233,7 @@ HeardUpdate(pe, r, N) ==
   IN [pe EXCEPT !.sil   = [q \in 0..N-1 |-> IF from(q) THEN 0 ELSE r.t - pe.heard[q]],
                 !.heard = [q \in 0..N-1 |-> IF from(q) THEN r.t ELSE pe.heard[q]],
                 !.drq   = [q \in 0..N-1 |-> pe.drq[q] \/ dr(q)],
-                !.calls = @ + 1]
+                !.calls = Min2(@ + 1, 2)]
 
 \* buffer bounds (C18) and stranded outgoing inputs (C11) on a P2P line
 RECURSIVE EpViol(_, _, _, _, _)
